@@ -32,7 +32,7 @@ CFIT_LIKE = ("cfit", "cfit_cached", "cfit_extended", "simple_cfit")
 
 MASSES = (2.0, [0.3, 0.4, 0.5])
 LISTF = "rdot rsum map rscale rzip fst snd"
-IP = "interval with (i_prec 70)"
+IP = "first [ interval with (i_prec 70) | interval with (i_prec 120) ]"  # second attempt: sums of ~30 logarithms of densities ~1e6 need more than 70 bits (thorough C06 s81)
 
 
 # ----------------------------------------------------------------------------- inputs
